@@ -929,3 +929,38 @@ pub fn with_layout<T: Clone, R>(data: &[T], filler: T, layout: u8, f: impl FnOnc
         }
     }
 }
+
+// ---------------------------------------------------------------------------
+// byte tape -> matrix (fuzz targets): byte 0 = rows, byte 1 = columns, byte 2 = mode
+// (even: the tape continues with (row, column) pairs, inserted in tape order; odd: bitmap)
+
+pub fn mat_from_bytes(data: &[u8], maxdim: usize, wide: bool) -> (Mat, u64) {
+    let b = |i: usize| data.get(i).copied().unwrap_or(0) as usize;
+    let mut rows = 1 + b(0) % maxdim;
+    let mut cols = 1 + b(1) % maxdim;
+    if wide && rows > cols {
+        std::mem::swap(&mut rows, &mut cols);
+    }
+    let mut m = Mat::new(rows, cols);
+    let mut seen = BTreeSet::new();
+    let body = data.get(3..).unwrap_or(&[]);
+    if b(2) % 2 == 0 {
+        for pr in body.chunks_exact(2) {
+            let e = (pr[0] as usize % rows, pr[1] as usize % cols);
+            if seen.insert(e) {
+                m.ones.push(e);
+            }
+        }
+    } else {
+        for i in 0..rows * cols {
+            if body.get(i / 8).is_some_and(|x| (x >> (i % 8)) & 1 == 1) {
+                m.ones.push((i / cols, i % cols));
+            }
+        }
+    }
+    let mut salt = 0xcbf2_9ce4_8422_2325u64;
+    for x in data.iter().take(64) {
+        salt = (salt ^ *x as u64).wrapping_mul(0x100_0000_01b3);
+    }
+    (m, salt)
+}
